@@ -219,7 +219,24 @@ func byteLayout(ev *tf.Eval, t *tf.Term, bufWrites map[string][]*tf.Term, starre
 			case tf.KStar:
 				for _, sp := range p.Args {
 					if sp.K == tf.KSplice {
-						out = append(out, byteLayout(ev, tf.Seq(sp), bufWrites, true)...)
+						items := byteLayout(ev, tf.Seq(sp), bufWrites, true)
+						// the loop must visit every element of the slice it packs, no fewer and no more: a bound taken from
+						// another slice (len(p.IdComms) for p.DeletionIndices) drops or over-reads elements
+						for k := range items {
+							src := ev.Resolve(items[k].Source)
+							if src.K == tf.KIdx && src.Args[1].K == tf.KIndVar && src.Args[1].Loop == p.Loop {
+								n, okN := loopRangeZeroTo(p.Loop)
+								if !okN || !tf.Eq(stripConv(n), tf.Len(src.Args[0])) {
+									bound := "an unrecognised range"
+									if okN {
+										bound = "0.." + describe(n) + "-1"
+									}
+									items[k].Kind = "?"
+									items[k].Why = "the loop packs " + describe(src.Args[0]) + "[i] for i over " + bound + ", not over every element of that slice"
+								}
+							}
+						}
+						out = append(out, items...)
 					} else {
 						out = append(out, layoutItem{Kind: "?", Source: sp, Starred: true, Why: "single bytes appended in a loop"})
 					}
